@@ -106,9 +106,16 @@ def gen_case(rng, tier, g):
         steps.insert(rng.randint(0, len(steps)), op)
     if rng.random() < 0.3:
         steps.append(['GC'])
-    return {'prop': PROP, 'stack': stack, 'tables': tables, 'steps': steps,
+    case = {'prop': PROP, 'stack': stack, 'tables': tables, 'steps': steps,
             'shape': shape,
             'knobs': {'sort_buffersize': rng.choice([None, 1, 2, 2, 3, 4])}}
+    if nviews == 1 and rng.random() < 0.2:
+        # enumeration mode: instead of one sampled history, EVERY
+        # abandonment point x release order, and a source failure at EVERY
+        # row index, each as its own short history on a fresh view
+        case['enum'] = rng.choice(SOURCE_ERROR_KINDS)
+        case['steps'] = []
+    return case
 
 
 class _FaultyTemp(object):
@@ -211,9 +218,14 @@ def run_case(case):
             if uses_diskfull:
                 psorts.NamedTemporaryFile = ctl.factory
                 pjson.NamedTemporaryFile = ctl.factory
-            result, nsteps, maxfiles = _history(e, case, stack, expected, td,
-                                                sb, ctl, log, probes, label,
-                                                group)
+            if case.get('enum'):
+                result, nsteps, maxfiles = _enumerate(
+                    e, case, stack, expected, td, sb, ctl, log, probes,
+                    label, group)
+            else:
+                result, nsteps, maxfiles = _history(
+                    e, case, stack, expected, td, sb, ctl, log, probes,
+                    label, group)
             gc.collect()
             if result is None:
                 left = _listing(sb.path)
@@ -318,6 +330,58 @@ def _history(e, case, stack, expected, td, sb, ctl, log, probes, label,
     return result, nsteps, maxfiles
 
 
+def _mini_histories(nrows_out, nsrc_rows, kind):
+    """Every abandonment point x release order, and a failure at every
+    source row."""
+    out = []
+    for k in range(0, nrows_out + 2):
+        adv = [['ITER', 't0', 0]] + ([['BURST', 't0', k]] if k else [])
+        out.append(adv + [['DROP', 't0'], ['DROPVIEW', 0]])
+        out.append(adv + [['DROPVIEW', 0], ['DROP', 't0']])
+        out.append(adv + [['CLOSE', 't0'], ['DROPVIEW', 0], ['DROP', 't0']])
+        out.append(adv + [['DROPVIEW', 0], ['GC'], ['DRAIN', 't0']])
+        out.append([['ITER', 't0', 0], ['ITER', 't1', 0]] +
+                   ([['BURST', 't0', k]] if k else []) +
+                   [['NEXT', 't1'], ['DROP', 't0'], ['DROPVIEW', 0],
+                    ['DRAIN', 't1']])
+    for si, n in enumerate(nsrc_rows):
+        for i in range(0, n + 2):
+            out.append([['ARM', si, i, 1, kind], ['ITER', 't0', 0],
+                        ['DRAIN', 't0'], ['ITER', 't1', 0], ['NEXT', 't1'],
+                        ['DROPVIEW', 0]])
+    return out
+
+
+def _enumerate(e, case, stack, expected, td, sb, ctl, log, probes, label,
+               group):
+    minis = _mini_histories(len(expected[0]),
+                            [len(t) - 1 for t in case['tables']],
+                            case['enum'])
+    total = 0
+    maxfiles = 0
+    for steps in minis:
+        sub = dict(case, steps=steps)
+        result, nsteps, mf = _history(e, sub, stack, expected, td, sb, ctl,
+                                      log, {}, label, group)
+        gc.collect()
+        total += nsteps
+        maxfiles = max(maxfiles, mf)
+        if result is None:
+            left = _listing(sb.path)
+            if left:
+                result = _viol(case, log, 'temp-file-leak',
+                               '%s: after the history %r, %d temp files '
+                               'still exist: %r' % (label, steps, len(left),
+                                                    left), group)
+        if result is not None:
+            result['msg'] = '%s [enumerated history %r]' % (result['msg'],
+                                                            steps)
+            return result, total, maxfiles
+    probes['enumerated-histories'] = len(minis)
+    probes['enumeration-cases'] = 1
+    return None, total, maxfiles
+
+
 def _viol(case, log, vclass, msg, group):
     label = '+'.join(s[0] for s in case['stack'])
     return outcome('violation', vclass=vclass, msg=msg,
@@ -338,6 +402,7 @@ def selfcheck(agg):
         return []
     errs = []
     for p in ('temp-files-seen', 'iterator-outlived-view', 'recovery-pass',
+              'enumeration-cases',
               'view-dropped-while-iterating', 'iterator-failed-by-injection'):
         if not agg['probes'].get(p):
             errs.append('probe never hit: ' + p)
